@@ -420,6 +420,54 @@ def _open_relative_then_chdir(prop, paths, kw):
     return r
 
 
+def _earlier_recording_at_the_same_paths(prop, paths) -> None:
+    """State left in the PROCESS by an earlier observation that lived at the same paths: in a fifth of the (small) file
+    sets the paths first hold another recording of exactly the same byte size whose header is 4 bytes longer (a longer
+    `rawdatafile`) and whose data differ; it is opened, read and dropped; then the real files are put back.  Anything the
+    library remembers about a path (parsed headers, lengths, offsets) is stale for the reader opened next."""
+    from . import filgen
+
+    sizes = [os.path.getsize(p) for p in paths]
+    if max(sizes) > (1 << 16) or (sum(sizes) + len(paths)) % 5 != 3:
+        return
+    real, decoys = [], []
+    for p in paths:
+        with open(p, "rb") as fp:
+            raw = fp.read()
+        try:
+            fields, hl = filgen.parse_header(raw)
+        except filgen.HeaderError:
+            return
+        if len(raw) - hl < 5 or "rawdatafile" not in fields:
+            return
+        f2 = dict(fields)
+        f2["rawdatafile"] = fields["rawdatafile"] + "yyyy"
+        hdr2 = filgen.encode_header(f2)
+        if len(hdr2) != hl + 4:
+            return
+        real.append(raw)
+        decoys.append(hdr2 + bytes(255 - b for b in raw[hl : len(raw) - 4]))
+    try:
+        for p, d in zip(paths, decoys):
+            with open(p, "wb") as fp:
+                fp.write(d)
+        try:
+            from sigpyproc.readers import FilReader
+
+            r0 = FilReader(list(paths), check_contiguity=False)
+            r0.read_block(0, 1)
+            r0._file.close()
+            del r0
+        except (SimCrash, SimLivelock):
+            raise
+        except Exception:  # noqa: BLE001,S110 - context, not the call under test
+            pass
+    finally:
+        for p, raw in zip(paths, real):
+            with open(p, "wb") as fp:
+                fp.write(raw)
+
+
 def open_reader(prop, paths, **kw):
     """Open the harness-written (valid, contiguous unless stated) file set with the library's reader.
     A refusal here is the library failing on a valid input, i.e. a violation - not a harness error."""
@@ -427,6 +475,7 @@ def open_reader(prop, paths, **kw):
 
     from sigpyproc.readers import FilReader
 
+    _earlier_recording_at_the_same_paths(prop, paths)
     # the documented argument forms: str | Path | Sequence[str | Path]; which one is used is a pure
     # function of the file set (so a scenario always uses the same form)
     variant = (len(paths) * 7 + sum(os.path.getsize(p) for p in paths)) % 7
